@@ -76,6 +76,18 @@ def r12_1(ctx, m, schema):
     pf = m.parent
     loops = [n for n in walk_own(pf.node) if isinstance(n, ast.For) and "read_file" in norm(n.iter)]
     ctx.require_count("R12.1", len(loops), 1, pf.where(), "record loop of the parent")
+    # the parent hands the parsed record on as it is: it does not write into it before batching (a blanked CIGAR also blanks
+    # what the pass-through branch of the worker writes back for alignments that are not realigned)
+    if loops and isinstance(loops[0].target, ast.Name):
+        rv_ = loops[0].target.id
+        for st_ in walk_stmts(loops[0].body):
+            if isinstance(st_, (ast.Assign, ast.AugAssign)):
+                for tg_ in (st_.targets if isinstance(st_, ast.Assign) else [st_.target]):
+                    b_ = tg_
+                    while isinstance(b_, (ast.Attribute, ast.Subscript)):
+                        b_ = b_.value
+                    if isinstance(tg_, (ast.Attribute, ast.Subscript)) and isinstance(b_, ast.Name) and b_.id == rv_:
+                        ctx.violated("R12.1", pf.where(st_), f"`{norm(st_)[:60]}` changes the parsed record before it is batched: a record the worker does not realign (read span over the limit) is written back from this changed record, so its columns / optional fields are no longer those of the input", key_of(pf, f"record-changed-before-batch:{norm(tg_)[:40]}"))
     loop = loops[0]
     rec = norm(loop.target)
     appends = [st for st in walk_stmts(loop.body) if isinstance(st, ast.Expr) and isinstance(st.value, ast.Call) and isinstance(st.value.func, ast.Attribute) and st.value.func.attr == "append" and st.value.args and isinstance(st.value.args[0], ast.Tuple)]
@@ -146,6 +158,8 @@ def r12_1(ctx, m, schema):
             bad = (p, f"the path sequence `{seq}` sliced for this record was not extracted in this iteration")
             break
         ok_seq = isinstance(sv, ast.Call) and isinstance(sv.func, ast.Attribute) and sv.func.attr == "extract_path" and [norm(a) for a in sv.args][:1] == [f"{rec}.{P[5]}"] and all(isinstance(a, ast.Constant) for a in sv.args[1:])
+        if not ok_seq and ((isinstance(sv, ast.Call) and isinstance(sv.func, ast.Attribute) and sv.func.attr in ("get", "setdefault") and sv.args and norm(sv.args[0]) == f"{rec}.{P[5]}") or (isinstance(sv, ast.Subscript) and norm(sv.slice) == f"{rec}.{P[5]}")):
+            raise AnalysisError("R12.1", pf.where(), f"the path sequence comes out of a table keyed by the record's path (`{norm(sv)[:50]}`): that the table holds extract_path of that path is not followed by this rule")
         if not ok_seq:
             bad = (p, f"path sequence is `{norm(sv)}`, expected extract_path({rec}.{P[5]})")
             break
@@ -341,6 +355,8 @@ def r12_2(ctx, m):
         for rb in rebinds:
             ctx.violated("R12.2", wf.where(rb), f"the tally `{accn}` is replaced by `{norm(rb.value)[:60]}` before it is written: a value of 0 computed from the new alignment is discarded in favour of something else", key_of(wf, f"tally-rebound:{accn}:{norm(rb.value)[:60]}"))
     eq_codes = [c for c, (incs, letters) in table.items() if acc10 in incs]
+    if not eq_codes or not any(acc11 in table[c_][0] for c_ in table):
+        raise AnalysisError("R12.2", wf.where(oploop), f"the columns are written from `{acc10}` / `{acc11}`, which the loop over the alignment operations does not add to (values carried through other names, or one template shared by both branches): not followed by this rule")
     ok10 = eq_codes == [0] and (not table[0][1] or table[0][1] == ["="])
     ctx.check(ok10, "R12.2", wf.where(oploop), f"the match count `{acc10}` grows only under the op code spelled '=' (code 0: match)", key_of(wf, f"match-tally:{eq_codes}"), codes=eq_codes)
     # block length: grows by the length of every aligned operation (=, X, I, D)
@@ -376,6 +392,8 @@ def r12_3(ctx, m, schema, extras):
         raise AnalysisError("R12.3", wf.where(loop), "cannot find the length guard")
     t = guard.test
     ok = isinstance(t, ast.Compare) and len(t.ops) == 1 and isinstance(t.ops[0], ast.Gt) and norm(t.left) == f"{rec}.{P[3]} - {rec}.{P[2]}" and const_value(t.comparators[0]) == 60000
+    if not ok and not (isinstance(t, ast.Compare) and len(t.ops) == 1 and isinstance(const_value(t.comparators[0], None), int)):
+        raise AnalysisError("R12.3", wf.where(guard), f"the pass-through decision `{norm(t)[:60]}` is not a comparison of the record's read span with a constant in the worker (a flag computed elsewhere, a parameter): where it is decided is not followed by this rule")
     # documented constant
     doc = None
     try:
@@ -426,6 +444,21 @@ def r12_4(ctx, m):
     wf = m.worker
     ctors = [c for c in walk_own(wf.node) if isinstance(c, ast.Call) and norm(c.func).endswith("WavefrontAligner")]
     ctx.require_count("R12.4", len(ctors), 1, wf.where(), "aligner constructions")
+    # every record gets an aligner built for its own reference slice: the construction is not skipped once an aligner exists
+    # (the aligner keeps the pattern it was constructed with: a re-used one aligns later records against the first record's path)
+    from .c09 import guards_of as _gof12
+
+    for c in ctors:
+        st_ = next((s2 for s2 in walk_stmts(wf.node.body) if isinstance(s2, ast.Assign) and s2.value is c), None)
+        if st_ is None:
+            continue
+        av_ = norm(st_.targets[0])
+        for t_, pol_ in _gof12(wf.node, st_):
+            if av_ in {x_.id for x_ in ast.walk(t_) if isinstance(x_, ast.Name)}:
+                ctx.violated("R12.4", wf.where(st_), f"the aligner is constructed only when `{norm(t_)[:40]}`: it is built once with the first record's reference slice and re-used, so every later record of the batch is aligned against that first slice (its CIGAR no longer spells its own path and read)", key_of(wf, f"aligner-reused:{norm(t_)[:30]}"))
+        loops_ = [l_ for l_ in wf.node.body if isinstance(l_, ast.For)]
+        if loops_ and not any(x_ is st_ for x_ in ast.walk(loops_[0])):
+            ctx.violated("R12.4", wf.where(st_), "the aligner is constructed outside the loop over the records of the batch: one aligner, built for one reference slice, serves all records", key_of(wf, "aligner-outside-loop"))
     for c in ctors:
         kws = {k.arg: norm(k.value) for k in c.keywords}
         heur = kws.get("heuristic")
